@@ -88,6 +88,7 @@ type Ctx struct {
 	freshSeq     int
 	eqMemo       map[*Term]*Term
 	srcMemo      map[*Term][]*Term
+	numMemo      map[string]numInfo
 	bypass       bool
 
 	kf         []kfClass
@@ -108,10 +109,17 @@ func (c *Ctx) errf(f string, a ...interface{}) {
 	panic(engineErr{fmt.Sprintf(f, a...) + " at " + c.cp() + "\n  stack: " + strings.Join(c.stackNames(12), "\n         ")})
 }
 
+func (c *Ctx) checkTaint(t *Term) {
+	if t.taint {
+		c.errf("a branch/assumption/assertion depends on opaque (unmodelled) text")
+	}
+}
+
 func (c *Ctx) addPC(t *Term) {
 	if t.IsTrue() {
 		return
 	}
+	c.checkTaint(t)
 	c.pc = append(c.pc, t)
 	c.solver.Assert(t)
 }
@@ -129,6 +137,7 @@ func (c *Ctx) feasible(t *Term) bool {
 	if t.IsFalse() {
 		return false
 	}
+	c.checkTaint(t)
 	r := c.solver.Check(t)
 	c.solver.Done()
 	switch r {
@@ -156,6 +165,7 @@ func (c *Ctx) violable(bad *Term) (*Term, bool) {
 	if bad.IsFalse() {
 		return bad, false
 	}
+	c.checkTaint(bad)
 	r := "sat"
 	if !bad.IsTrue() {
 		r = c.solver.Check(bad)
